@@ -17,23 +17,23 @@ def Untouched (r : Outcome × Ledger) (l : Ledger) : Prop := r.1 ≠ .added ∧ 
 
 /-- **Reject ⇒ no-op**, syncing path (`AddBlock`): whatever the block, the expected state root, the ledger and the primitives,
 if the block is not added nothing changed. -/
-theorem C39_reject_noop (v : Variant) (P : Prims) (b : Block) (sr : Hash) (l : Ledger)
-    (h : (addBlock v P b sr l).1 ≠ .added) : (addBlock v P b sr l).2 = l := by
-  rcases run_guardsFirst _ (addBlock_guardsFirst v P b sr) l with ⟨_, h2, _⟩ | ⟨h1, _⟩
+theorem C39_reject_noop (P : Prims) (b : Block) (sr : Hash) (l : Ledger)
+    (h : (addBlock P b sr l).1 ≠ .added) : (addBlock P b sr l).2 = l := by
+  rcases run_guardsFirst _ (addBlock_guardsFirst P b sr) l with ⟨_, h2, _⟩ | ⟨h1, _⟩
   · exact h2
   · exact absurd (by rw [addBlock, h1]) h
 
 /-- the same for bytes from a peer (`BlockFromRawBytes` + `AddBlock`) -/
-theorem C39_reject_noop_bytes (v : Variant) (P : Prims) (b : Block) (sr : Hash) (l : Ledger)
-    (h : (addBlockBytes v P b sr l).1 ≠ .added) : (addBlockBytes v P b sr l).2 = l := by
-  rcases run_guardsFirst _ (addBlockBytes_guardsFirst v P b sr) l with ⟨_, h2, _⟩ | ⟨h1, _⟩
+theorem C39_reject_noop_bytes (P : Prims) (b : Block) (sr : Hash) (l : Ledger)
+    (h : (addBlockBytes P b sr l).1 ≠ .added) : (addBlockBytes P b sr l).2 = l := by
+  rcases run_guardsFirst _ (addBlockBytes_guardsFirst P b sr) l with ⟨_, h2, _⟩ | ⟨h1, _⟩
   · exact h2
   · exact absurd (by rw [addBlockBytes, h1]) h
 
 /-- the same for the consensus path (`ExecuteBlock` + `SubmitBlock`) -/
-theorem C39_reject_noop_submit (v : Variant) (P : Prims) (b : Block) (l : Ledger)
-    (h : (submitBlock v P b l).1 ≠ .added) : (submitBlock v P b l).2 = l := by
-  rcases run_guardsFirst _ (submitBlock_guardsFirst v P b) l with ⟨_, h2, _⟩ | ⟨h1, _⟩
+theorem C39_reject_noop_submit (P : Prims) (b : Block) (l : Ledger)
+    (h : (submitBlock P b l).1 ≠ .added) : (submitBlock P b l).2 = l := by
+  rcases run_guardsFirst _ (submitBlock_guardsFirst P b) l with ⟨_, h2, _⟩ | ⟨h1, _⟩
   · exact h2
   · exact absurd (by rw [submitBlock, h1]) h
 
@@ -47,11 +47,11 @@ theorem C39_reject_noop_header (P : Prims) (h : Hdr) (l : Ledger)
 /-- **Exactly the acceptable blocks are added**: `AddBlock` adds the block iff it is the next height, its previous header is
 known at height-1 with a smaller timestamp, the bookkeeper set hashes to the previous NextBookkeeper, the multi-signature
 verifies, the ledger is not closing, execution succeeds with the expected state root (unless the block is empty) and the block
-root matches (`.sound` additionally: the previous hash is the current block hash). -/
-theorem C39_added_iff (v : Variant) (P : Prims) (b : Block) (sr : Hash) (l : Ledger) :
-    (addBlock v P b sr l).1 = .added ↔ Acceptable v P l b sr := by
+root matches, and the previous hash is the current block hash. -/
+theorem C39_added_iff (P : Prims) (b : Block) (sr : Hash) (l : Ledger) :
+    (addBlock P b sr l).1 = .added ↔ Acceptable P l b sr := by
   rw [← addBlock_passes]
-  rcases run_guardsFirst _ (addBlock_guardsFirst v P b sr) l with ⟨h1, _, s, hs, hp⟩ | ⟨h1, h2⟩
+  rcases run_guardsFirst _ (addBlock_guardsFirst P b sr) l with ⟨h1, _, s, hs, hp⟩ | ⟨h1, h2⟩
   · constructor
     · intro h; exact absurd h h1
     · intro h; rw [h s hs] at hp; cases hp
@@ -60,19 +60,19 @@ theorem C39_added_iff (v : Variant) (P : Prims) (b : Block) (sr : Hash) (l : Led
     · intro _; rw [addBlock, h1]
 
 /-- bytes pipeline: additionally no duplicated transaction and the header's transaction root is the merkle root of the transactions -/
-theorem C39_added_iff_bytes (v : Variant) (P : Prims) (b : Block) (sr : Hash) (l : Ledger) :
-    (addBlockBytes v P b sr l).1 = .added
-      ↔ (hasDup (b.txs.map P.txHash) = false ∧ b.hdr.u.txRoot = P.merkleRoot (b.txs.map P.txHash) ∧ Acceptable v P l b sr) := by
+theorem C39_added_iff_bytes (P : Prims) (b : Block) (sr : Hash) (l : Ledger) :
+    (addBlockBytes P b sr l).1 = .added
+      ↔ (hasDup (b.txs.map P.txHash) = false ∧ b.hdr.u.txRoot = P.merkleRoot (b.txs.map P.txHash) ∧ Acceptable P l b sr) := by
   rw [← addBlock_passes]
-  have key : (∀ s ∈ addBlockBytesSteps v P b sr, Step.passes l s = true)
+  have key : (∀ s ∈ addBlockBytesSteps P b sr, Step.passes l s = true)
       ↔ (hasDup (b.txs.map P.txHash) = false ∧ b.hdr.u.txRoot = P.merkleRoot (b.txs.map P.txHash)
-          ∧ ∀ s ∈ addBlockSteps v P b sr, Step.passes l s = true) := by
+          ∧ ∀ s ∈ addBlockSteps P b sr, Step.passes l s = true) := by
     simp only [addBlockBytesSteps, decodeSteps, List.mem_append, or_imp, forall_and, List.mem_cons, List.mem_nil_iff, or_false,
       forall_eq, Step.passes]
     by_cases hd : hasDup (b.txs.map P.txHash) = true <;> by_cases hr : b.hdr.u.txRoot = P.merkleRoot (b.txs.map P.txHash) <;>
       simp [hd, hr]
   rw [← key]
-  rcases run_guardsFirst _ (addBlockBytes_guardsFirst v P b sr) l with ⟨h1, _, s, hs, hp⟩ | ⟨h1, h2⟩
+  rcases run_guardsFirst _ (addBlockBytes_guardsFirst P b sr) l with ⟨h1, _, s, hs, hp⟩ | ⟨h1, h2⟩
   · constructor
     · intro h; exact absurd h h1
     · intro h; rw [h s hs] at hp; cases hp
@@ -82,53 +82,53 @@ theorem C39_added_iff_bytes (v : Variant) (P : Prims) (b : Block) (sr : Hash) (l
 
 /-! ### per-field: a wrong field ⇒ not added and nothing changed -/
 
-private theorem untouched_of_not_acceptable {v P b sr l} (h : ¬ Acceptable v P l b sr) : Untouched (addBlock v P b sr l) l := by
-  have : (addBlock v P b sr l).1 ≠ .added := fun ha => h ((C39_added_iff v P b sr l).mp ha)
-  exact ⟨this, C39_reject_noop v P b sr l this⟩
+private theorem untouched_of_not_acceptable {P b sr l} (h : ¬ Acceptable P l b sr) : Untouched (addBlock P b sr l) l := by
+  have : (addBlock P b sr l).1 ≠ .added := fun ha => h ((C39_added_iff P b sr l).mp ha)
+  exact ⟨this, C39_reject_noop P b sr l this⟩
 
 /-- wrong height (stale, too far ahead, anything but current+1) -/
-theorem C39_height_checked (v P b sr l) (h : b.hdr.u.height ≠ (l.mem.curHeight + 1) % u32) : Untouched (addBlock v P b sr l) l :=
+theorem C39_height_checked (P b sr l) (h : b.hdr.u.height ≠ (l.mem.curHeight + 1) % u32) : Untouched (addBlock P b sr l) l :=
   untouched_of_not_acceptable fun a => h a.next.2
 
 /-- unknown previous hash -/
-theorem C39_prev_unknown_checked (v P b sr l) (h : lookupHeader l b.hdr.u.prev = none) : Untouched (addBlock v P b sr l) l :=
+theorem C39_prev_unknown_checked (P b sr l) (h : lookupHeader l b.hdr.u.prev = none) : Untouched (addBlock P b sr l) l :=
   untouched_of_not_acceptable fun a => by obtain ⟨ph, hp, _⟩ := a.header.prev; rw [h] at hp; cases hp
 
 /-- previous hash of a header that is not at height-1 (an older block, …) -/
-theorem C39_prev_height_checked (v P b sr l ph) (hp : lookupHeader l b.hdr.u.prev = some ph)
-    (h : (ph.u.height + 1) % u32 ≠ b.hdr.u.height) : Untouched (addBlock v P b sr l) l :=
+theorem C39_prev_height_checked (P b sr l ph) (hp : lookupHeader l b.hdr.u.prev = some ph)
+    (h : (ph.u.height + 1) % u32 ≠ b.hdr.u.height) : Untouched (addBlock P b sr l) l :=
   untouched_of_not_acceptable fun a => by
     obtain ⟨ph', hp', hh, _⟩ := a.header.prev
     rw [hp] at hp'; cases hp'; exact h hh
 
 /-- non-increasing timestamp -/
-theorem C39_timestamp_checked (v P b sr l ph) (hp : lookupHeader l b.hdr.u.prev = some ph)
-    (h : b.hdr.u.ts ≤ ph.u.ts) : Untouched (addBlock v P b sr l) l :=
+theorem C39_timestamp_checked (P b sr l ph) (hp : lookupHeader l b.hdr.u.prev = some ph)
+    (h : b.hdr.u.ts ≤ ph.u.ts) : Untouched (addBlock P b sr l) l :=
   untouched_of_not_acceptable fun a => by
     obtain ⟨ph', hp', _, ht, _⟩ := a.header.prev
     rw [hp] at hp'; cases hp'; omega
 
 /-- bookkeeper set that does not hash to the NextBookkeeper of the previous header (or has no address at all) -/
-theorem C39_bookkeeper_checked (v P b sr l ph) (hp : lookupHeader l b.hdr.u.prev = some ph)
-    (h : P.addrOf b.hdr.keys ≠ some ph.u.nextBk) : Untouched (addBlock v P b sr l) l :=
+theorem C39_bookkeeper_checked (P b sr l ph) (hp : lookupHeader l b.hdr.u.prev = some ph)
+    (h : P.addrOf b.hdr.keys ≠ some ph.u.nextBk) : Untouched (addBlock P b sr l) l :=
   untouched_of_not_acceptable fun a => by
     obtain ⟨ph', hp', _, _, ha⟩ := a.header.prev
     rw [hp] at hp'; cases hp'; exact h ha
 
 /-- insufficient valid signatures: the multi-signature check fails -/
-theorem C39_signatures_checked (v P b sr l)
+theorem C39_signatures_checked (P b sr l)
     (h : verifyMulti P (P.hdrHash b.hdr.u) b.hdr.keys (OntVerif.Gen.Quorum.ledgerStore_m b.hdr.keys.length) b.hdr.sigs ≠ none) :
-    Untouched (addBlock v P b sr l) l :=
+    Untouched (addBlock P b sr l) l :=
   untouched_of_not_acceptable fun a => h a.header.sigs
 
 /-- wrong block root -/
-theorem C39_blockroot_checked (v P b sr l) (h : P.rootWith l.mem.blockLeaves b.hdr.u.txRoot ≠ b.hdr.u.blockRoot) :
-    Untouched (addBlock v P b sr l) l :=
+theorem C39_blockroot_checked (P b sr l) (h : P.rootWith l.mem.blockLeaves b.hdr.u.txRoot ≠ b.hdr.u.blockRoot) :
+    Untouched (addBlock P b sr l) l :=
   untouched_of_not_acceptable fun a => h a.root
 
 /-- wrong state root on a non-empty block -/
-theorem C39_stateroot_checked (v P b sr l ws st) (he : execRes P l b = some (ws, st)) (hne : b.txs ≠ [])
-    (h : P.stateRootWith l.mem.deltaLeaves ws ≠ sr) : Untouched (addBlock v P b sr l) l :=
+theorem C39_stateroot_checked (P b sr l ws st) (he : execRes P l b = some (ws, st)) (hne : b.txs ≠ [])
+    (h : P.stateRootWith l.mem.deltaLeaves ws ≠ sr) : Untouched (addBlock P b sr l) l :=
   untouched_of_not_acceptable fun a => by
     obtain ⟨ws', st', he', hs⟩ := a.exec
     rw [he] at he'; cases he'
@@ -137,61 +137,62 @@ theorem C39_stateroot_checked (v P b sr l ws st) (he : execRes P l b = some (ws,
     · exact h hs
 
 /-- bad transaction root, block delivered as bytes -/
-theorem C39_txroot_checked (v P b sr l) (h : b.hdr.u.txRoot ≠ P.merkleRoot (b.txs.map P.txHash)) :
-    Untouched (addBlockBytes v P b sr l) l := by
-  have : (addBlockBytes v P b sr l).1 ≠ .added := fun ha => h ((C39_added_iff_bytes v P b sr l).mp ha).2.1
-  exact ⟨this, C39_reject_noop_bytes v P b sr l this⟩
+theorem C39_txroot_checked (P b sr l) (h : b.hdr.u.txRoot ≠ P.merkleRoot (b.txs.map P.txHash)) :
+    Untouched (addBlockBytes P b sr l) l := by
+  have : (addBlockBytes P b sr l).1 ≠ .added := fun ha => h ((C39_added_iff_bytes P b sr l).mp ha).2.1
+  exact ⟨this, C39_reject_noop_bytes P b sr l this⟩
 
 /-- duplicated transaction, block delivered as bytes -/
-theorem C39_duptx_checked (v P b sr l) (h : hasDup (b.txs.map P.txHash) = true) :
-    Untouched (addBlockBytes v P b sr l) l := by
-  have : (addBlockBytes v P b sr l).1 ≠ .added := fun ha => by
-    have := ((C39_added_iff_bytes v P b sr l).mp ha).1
+theorem C39_duptx_checked (P b sr l) (h : hasDup (b.txs.map P.txHash) = true) :
+    Untouched (addBlockBytes P b sr l) l := by
+  have : (addBlockBytes P b sr l).1 ≠ .added := fun ha => by
+    have := ((C39_added_iff_bytes P b sr l).mp ha).1
     rw [h] at this; cases this
-  exact ⟨this, C39_reject_noop_bytes v P b sr l this⟩
+  exact ⟨this, C39_reject_noop_bytes P b sr l this⟩
 
 /-- `AddBlock` on an in-memory block object does not recompute the transaction root; but a block in which ONLY the transaction
 root is wrong (the block root is the one of the true transaction root) is still refused unless the block-root accumulator collides. -/
-theorem C39_txroot_object_single_field (v P b sr l)
+theorem C39_txroot_object_single_field (P b sr l)
     (h : b.hdr.u.txRoot ≠ P.merkleRoot (b.txs.map P.txHash))
     (hb : b.hdr.u.blockRoot = P.rootWith l.mem.blockLeaves (P.merkleRoot (b.txs.map P.txHash))) :
-    Untouched (addBlock v P b sr l) l
+    Untouched (addBlock P b sr l) l
       ∨ (P.rootWith l.mem.blockLeaves b.hdr.u.txRoot = P.rootWith l.mem.blockLeaves (P.merkleRoot (b.txs.map P.txHash))
           ∧ b.hdr.u.txRoot ≠ P.merkleRoot (b.txs.map P.txHash)) := by
   by_cases hc : P.rootWith l.mem.blockLeaves b.hdr.u.txRoot = b.hdr.u.blockRoot
   · right; exact ⟨by rw [hc, hb], h⟩
-  · left; exact C39_blockroot_checked v P b sr l hc
+  · left; exact C39_blockroot_checked P b sr l hc
 
-/-! ### the previous hash must be the current block: repaired pipeline yes, shipped pipeline no -/
+/-! ### the previous hash must be the current block (guard added by `fixes/C39-prev-hash-is-tip.patch`, now in the tree) -/
 
-/-- full statement for the previous-hash field -/
-def C39_prev_full_statement (v : Variant) : Prop :=
-  ∀ (P : Prims) (b : Block) (sr : Hash) (l : Ledger), b.hdr.u.prev ≠ l.mem.curHash → Untouched (addBlock v P b sr l) l
+/-- wrong previous hash: anything but the hash of the current block — an unknown hash, an older block, or a header that only sits
+in the header cache -/
+theorem C39_prev_checked (P : Prims) (b : Block) (sr : Hash) (l : Ledger) (h : b.hdr.u.prev ≠ l.mem.curHash) :
+    Untouched (addBlock P b sr l) l :=
+  untouched_of_not_acceptable fun a => h a.tip
 
-theorem C39_prev_checked_sound : C39_prev_full_statement .sound := fun _ _ _ _ h =>
-  untouched_of_not_acceptable fun a => h (a.tip rfl)
+/-- the same on the consensus path -/
+theorem C39_prev_checked_submit (P : Prims) (b : Block) (l : Ledger) (h : b.hdr.u.prev ≠ l.mem.curHash) :
+    Untouched (submitBlock P b l) l := by
+  have hp : ∃ s ∈ submitBlockSteps P b, Step.passes l s = false :=
+    ⟨.guard "block.Header.PrevBlockHash != this.GetCurrentBlockHash()" (fun l => if b.hdr.u.prev ≠ l.mem.curHash then some .prevTip else none),
+      by simp [submitBlockSteps, heightGuards], by simp [Step.passes, h]⟩
+  have na : (submitBlock P b l).1 ≠ .added := by
+    rcases run_guardsFirst _ (submitBlock_guardsFirst P b) l with ⟨h1, _, _⟩ | ⟨_, h2⟩
+    · exact h1
+    · obtain ⟨s, hs, hf⟩ := hp
+      rw [h2 s hs] at hf; cases hf
+  exact ⟨na, C39_reject_noop_submit P b l na⟩
 
-/-- no header other than the current block is known at the current height (false once an equivocating signed header for that
-height sits in the header cache) -/
-def NoForkAtTip (l : Ledger) : Prop :=
-  ∀ hash ph, lookupHeader l hash = some ph → (ph.u.height + 1) % u32 = (l.mem.curHeight + 1) % u32 → hash = l.mem.curHash
-
-/-- as shipped: the previous hash is checked only through the height of the header it names -/
-theorem C39_prev_checked_partial (P : Prims) (b : Block) (sr : Hash) (l : Ledger)
-    (nf : NoForkAtTip l) (h : b.hdr.u.prev ≠ l.mem.curHash) : Untouched (addBlock .asShipped P b sr l) l :=
-  untouched_of_not_acceptable fun a => by
-    obtain ⟨ph, hp, hh, _⟩ := a.header.prev
-    exact h (nf _ ph hp (by rw [hh, a.next.2]))
-
-/-- the shipped pipeline does not satisfy the full statement: an equivocating signed header for height 1 is put into the header
-cache by `AddHeader`, the regular block 1 is added, and a correctly signed block 2 that names the *cached* header as its
-predecessor is added although its previous hash is not the hash of block 1.  (Replay: `A 0 fork;os1:prev=f`.) -/
+/-- the scenario that the unrepaired code accepted (replay `A 1 fork;os1:prev=f`, kept in corpus/C39): a second signed header for
+height 1 is put into the header cache by `AddHeader`, the regular block 1 is added, and a correctly signed block 2 names the
+*cached* header as its predecessor.  Every check of `verifyHeader` passes for it (`HeaderOK`), only the previous-hash guard
+refuses it. -/
 def witnessLedger : Ledger :=
   let l0 := genesis demoPrims
   let alt := validNext demoPrims l0 [] 1
   let l1 := (addHeader demoPrims alt.hdr l0).2
   let b1 := validNext demoPrims l1 [5] 0
-  (addBlock .asShipped demoPrims b1 (stateRootOf demoPrims l1 b1) l1).2
+  (addBlock demoPrims b1 (stateRootOf demoPrims l1 b1) l1).2
 
 def witnessBlock : Block :=
   let alt := validNext demoPrims (genesis demoPrims) [] 1
@@ -199,16 +200,10 @@ def witnessBlock : Block :=
   let u := { b.hdr.u with prev := demoPrims.hdrHash alt.hdr.u }
   { b with hdr := { u := u, keys := [1], sigs := [sign demoPrims 1 u] } }
 
-theorem C39_asShipped_prev_counterexample : ¬ C39_prev_full_statement .asShipped := by
-  intro h
-  have h1 : witnessBlock.hdr.u.prev ≠ witnessLedger.mem.curHash := by decide
-  have h2 := (h demoPrims witnessBlock (stateRootOf demoPrims witnessLedger witnessBlock) witnessLedger h1).1
-  revert h2
+theorem C39_fork_header_witness_refused :
+    (addBlock demoPrims witnessBlock (stateRootOf demoPrims witnessLedger witnessBlock) witnessLedger).1 = .rejected .prevTip
+      ∧ (run (verifyHeaderSteps demoPrims witnessBlock.hdr) witnessLedger).1 = .added := by
   decide
-
-/-- the repaired pipeline refuses the witness, touching nothing -/
-example : Untouched (addBlock .sound demoPrims witnessBlock (stateRootOf demoPrims witnessLedger witnessBlock) witnessLedger) witnessLedger :=
-  C39_prev_checked_sound _ _ _ _ (by decide)
 
 /-- **Insufficient valid signatures**: when the multi-signature check passes, the required number `m = n - (n-1)/3` of
 signatures is present, there are at least `m` bookkeeper keys, and each of the first `m` signatures parses and verifies under a
@@ -221,9 +216,9 @@ theorem C39_signatures_sufficient (P : Prims) (h : Hdr)
   verifyMulti_sound P _ _ _ _ hv
 
 /-- a rejected block does not influence what happens next: any later delivery behaves as if it had never been seen -/
-theorem C39_retry (v P b sr l b' sr') (h : (addBlock v P b sr l).1 ≠ .added) :
-    addBlock v P b' sr' (addBlock v P b sr l).2 = addBlock v P b' sr' l := by
-  rw [C39_reject_noop v P b sr l h]
+theorem C39_retry (P b sr l b' sr') (h : (addBlock P b sr l).1 ≠ .added) :
+    addBlock P b' sr' (addBlock P b sr l).2 = addBlock P b' sr' l := by
+  rw [C39_reject_noop P b sr l h]
 
 /-! ### the order of the model's guards and effects is the order of the statements in the source
 
@@ -254,15 +249,17 @@ def notEffectSites (ss : List Step) : List String := (ss.filter (fun s => !s.isE
 /-- the model's guards are the source's guards, in the same order: `AddBlock` up to `verifyHeader` (the cross-chain-message block
 is outside the model), then `saveBlock`, then the single validation of `submitBlock`; `SubmitBlock` likewise -/
 theorem C39_source_guard_order (P : Prims) (b : Block) (sr : Hash) :
-    notEffectSites (addBlockSteps .asShipped P b sr)
-      = (guardTexts addBlock).take 2 ++ notEffectSites (verifyHeaderSteps P b.hdr) ++ guardTexts saveBlock
+    notEffectSites (addBlockSteps P b sr)
+      = (guardTexts addBlock).take 3 ++ notEffectSites (verifyHeaderSteps P b.hdr) ++ guardTexts saveBlock
           ++ (guardTexts submitBlock).take 1
-    ∧ (guardTexts addBlock).drop 2 = ["verifyHeader", "ccMsg.Height != currBlockHeight", "ccMsg.Version != types.CURR_CROSS_STATES_VERSION",
+    ∧ (guardTexts addBlock).drop 3 = ["verifyHeader", "ccMsg.Height != currBlockHeight", "ccMsg.Version != types.CURR_CROSS_STATES_VERSION",
           "GetCrossStatesRoot", "root != ccMsg.StatesRoot", "verifyCrossChainMsg", "saveBlock"]
     ∧ (submitBlock.filter (fun e => e.1 = "guard" ∨ e.1 = "stop")).length = 1
-    ∧ (guardTexts submitBlockPublic).take 3 = ["this.closing", "blockHeight <= currBlockHeight", "blockHeight != nextBlockHeight"]
+    ∧ (guardTexts submitBlockPublic).take 4 = ["this.closing", "blockHeight <= currBlockHeight", "blockHeight != nextBlockHeight",
+          "block.Header.PrevBlockHash != this.GetCurrentBlockHash()"]
     ∧ (guardTexts addHeader).take 1 = notEffectSites ((addHeaderSteps P b.hdr).take 1) := by
-  have e1 : (guardTexts addBlock).take 2 = ["blockHeight <= currBlockHeight", "blockHeight != nextBlockHeight"] := by decide
+  have e1 : (guardTexts addBlock).take 3 = ["blockHeight <= currBlockHeight", "blockHeight != nextBlockHeight",
+      "block.Header.PrevBlockHash != this.GetCurrentBlockHash()"] := by decide
   have e2 : guardTexts saveBlock = ["blockHeight > 0 && blockHeight <= this.GetCurrentBlockHeight()", "this.closing",
       "blockHeight > 0 && blockHeight != (this.GetCurrentBlockHeight()+1)", "executeBlock",
       "len(block.Transactions) != 0 && result.MerkleRoot != stateMerkleRoot"] := by decide
@@ -276,29 +273,31 @@ end source
 /-! ### Non-vacuity: concrete chain, valid block added, each mutated field refused -/
 section examples
 def P0 := demoPrims
-def L1 : Ledger := (addBlock .sound P0 (validNext P0 (genesis P0) [1] 0) (stateRootOf P0 (genesis P0) (validNext P0 (genesis P0) [1] 0)) (genesis P0)).2
+def L1 : Ledger := (addBlock P0 (validNext P0 (genesis P0) [1] 0) (stateRootOf P0 (genesis P0) (validNext P0 (genesis P0) [1] 0)) (genesis P0)).2
 def B2 : Block := validNext P0 L1 [2, 3] 0
 def resign (u : Unsigned) : Block := { hdr := { u := u, keys := [1], sigs := [sign P0 1 u] }, txs := B2.txs }
 
 example : L1.mem.curHeight = 1 := by decide
-example : (addBlock .sound P0 B2 (stateRootOf P0 L1 B2) L1).1 = .added := by decide
-example : Acceptable .sound P0 L1 B2 (stateRootOf P0 L1 B2) := (C39_added_iff _ _ _ _ _).mp (by decide)
-example : (addBlockBytes .asShipped P0 B2 (stateRootOf P0 L1 B2) L1).1 = .added := by decide
-example : (submitBlock .asShipped P0 B2 L1).1 = .added := by decide
-example : (addBlock .sound P0 B2 (stateRootOf P0 L1 B2) L1).2.mem.curHeight = 2 := by decide
+example : (addBlock P0 B2 (stateRootOf P0 L1 B2) L1).1 = .added := by decide
+example : Acceptable P0 L1 B2 (stateRootOf P0 L1 B2) := (C39_added_iff _ _ _ _).mp (by decide)
+example : (addBlockBytes P0 B2 (stateRootOf P0 L1 B2) L1).1 = .added := by decide
+example : (submitBlock P0 B2 L1).1 = .added := by decide
+example : (addBlock P0 B2 (stateRootOf P0 L1 B2) L1).2.mem.curHeight = 2 := by decide
 -- re-signed single-field mutations, each caught by its own guard
-example : (addBlock .asShipped P0 (resign { B2.hdr.u with height := 3 }) (stateRootOf P0 L1 B2) L1).1 = .rejected .notNext := by decide
-example : (addBlock .asShipped P0 (resign { B2.hdr.u with height := 1 }) (stateRootOf P0 L1 B2) L1).1 = .ignored := by decide
-example : (addBlock .asShipped P0 (resign { B2.hdr.u with prev := [42] }) (stateRootOf P0 L1 B2) L1).1 = .rejected .prevUnknown := by decide
-example : (addBlock .asShipped P0 (resign { B2.hdr.u with prev := P0.hdrHash genesisBlock.hdr.u }) (stateRootOf P0 L1 B2) L1).1 = .rejected .prevHeight := by decide
-example : (addBlock .asShipped P0 (resign { B2.hdr.u with ts := 101 }) (stateRootOf P0 L1 B2) L1).1 = .rejected .timestamp := by decide
-example : (addBlock .asShipped P0 (resign { B2.hdr.u with blockRoot := [] }) (stateRootOf P0 L1 B2) L1).1 = .rejected .blockRoot := by decide
-example : (addBlock .asShipped P0 B2 [] L1).1 = .rejected .stateRoot := by decide
-example : (addBlockBytes .asShipped P0 (resign { B2.hdr.u with txRoot := [] }) (stateRootOf P0 L1 B2) L1).1 = .rejected .txRoot := by decide
-example : (addBlock .asShipped P0 { B2 with hdr := { B2.hdr with sigs := [] } } (stateRootOf P0 L1 B2) L1).1 = .rejected .sigCount := by decide
-example : (addBlock .asShipped P0 { B2 with hdr := { B2.hdr with keys := [2], sigs := [sign P0 2 B2.hdr.u] } } (stateRootOf P0 L1 B2) L1).1 = .rejected .bkMismatch := by decide
+example : (addBlock P0 (resign { B2.hdr.u with height := 3 }) (stateRootOf P0 L1 B2) L1).1 = .rejected .notNext := by decide
+example : (addBlock P0 (resign { B2.hdr.u with height := 1 }) (stateRootOf P0 L1 B2) L1).1 = .ignored := by decide
+example : (addBlock P0 (resign { B2.hdr.u with prev := [42] }) (stateRootOf P0 L1 B2) L1).1 = .rejected .prevTip := by decide
+example : (addBlock P0 (resign { B2.hdr.u with prev := P0.hdrHash genesisBlock.hdr.u }) (stateRootOf P0 L1 B2) L1).1 = .rejected .prevTip := by decide
+example : (addHeader P0 (resign { B2.hdr.u with prev := P0.hdrHash genesisBlock.hdr.u }).hdr L1).1 = .rejected .prevHeight := by decide
+example : (addHeader P0 (resign { B2.hdr.u with prev := [42] }).hdr L1).1 = .rejected .prevUnknown := by decide
+example : (addBlock P0 (resign { B2.hdr.u with ts := 101 }) (stateRootOf P0 L1 B2) L1).1 = .rejected .timestamp := by decide
+example : (addBlock P0 (resign { B2.hdr.u with blockRoot := [] }) (stateRootOf P0 L1 B2) L1).1 = .rejected .blockRoot := by decide
+example : (addBlock P0 B2 [] L1).1 = .rejected .stateRoot := by decide
+example : (addBlockBytes P0 (resign { B2.hdr.u with txRoot := [] }) (stateRootOf P0 L1 B2) L1).1 = .rejected .txRoot := by decide
+example : (addBlock P0 { B2 with hdr := { B2.hdr with sigs := [] } } (stateRootOf P0 L1 B2) L1).1 = .rejected .sigCount := by decide
+example : (addBlock P0 { B2 with hdr := { B2.hdr with keys := [2], sigs := [sign P0 2 B2.hdr.u] } } (stateRootOf P0 L1 B2) L1).1 = .rejected .bkMismatch := by decide
 -- raw mutation (signature left): caught by the signature check
-example : (addBlock .asShipped P0 { B2 with hdr := { B2.hdr with u := { B2.hdr.u with consData := 5 } } } (stateRootOf P0 L1 B2) L1).1 = .rejected .sigInvalid := by decide
+example : (addBlock P0 { B2 with hdr := { B2.hdr with u := { B2.hdr.u with consData := 5 } } } (stateRootOf P0 L1 B2) L1).1 = .rejected .sigInvalid := by decide
 end examples
 
 end OntVerif.Props.C39
